@@ -11,6 +11,10 @@ CONSTANTS
   MaxGen = 3
   Secure = TRUE
   Mutant = "expiredPiece"
+  Kind = "nsec"
+  Race = FALSE
+  MaxBorn = 0
+  Targets = {}
 INIT Init
 NEXT Next
 CHECK_DEADLOCK FALSE
